@@ -471,6 +471,47 @@ pub fn generate(out: &mut Out, tier: &str, seed: u64) {
         emit(out, l(vec![a(1), txt(t), sels.clone(), delims_sx.clone()]), "split_text (exhaustive)");
         emit(out, l(vec![a(2), txt(t), sels.clone(), sets_sx.clone()]), "trim_text+with (exhaustive)");
     }
+    // trim_text / trim_text_with with multi-byte characters in the trim set (2-, 3- and 4-byte:
+    // guillemets, no-break space, ellipsis, typographic quote, emoji): texts that begin / end with
+    // runs of them, texts consisting only of them, on the resource and on every sub-selection
+    {
+        let wide_trim: Vec<char> = vec!['\u{ab}', '\u{bb}', '\u{a0}', '\u{2026}', '\u{201c}', '\u{1f600}'];
+        let sets = l(vec![
+            txt(&['\u{ab}', '\u{bb}']),
+            txt(&['\u{2026}']),
+            txt(&['\u{a0}', ' ']),
+            txt(&['\u{1f600}', '\u{201c}']),
+            txt(&wide_trim),
+            txt(&['a']),
+        ]);
+        let cores: Vec<Vec<char>> = vec![vec![], vec!['a'], "Hall\u{e5} v\u{e4}rlden".chars().collect(), vec!['\u{2026}', 'a', '\u{ab}'], vec!['b', '\u{1f600}', 'c']];
+        let maxrun = if thorough { 3 } else { 2 };
+        for core in &cores {
+            for pre in 0..=maxrun {
+                for post in 0..=maxrun {
+                    for (ci, c) in wide_trim.iter().enumerate() {
+                        let d = wide_trim[(ci + 1) % wide_trim.len()];
+                        // runs of one character, and runs mixing two widths
+                        for mixed in [false, true] {
+                            let mut t: Vec<char> = Vec::new();
+                            for k in 0..pre {
+                                t.push(if mixed && k % 2 == 1 { d } else { *c });
+                            }
+                            t.extend(core.iter());
+                            for k in 0..post {
+                                t.push(if mixed && k % 2 == 0 { d } else { *c });
+                            }
+                            if t.len() > 9 && core.len() > 3 && (pre + post + ci) % 2 == 1 && !thorough {
+                                continue;
+                            }
+                            let sels = if t.len() <= 6 { l(all_sels(t.len(), ci)) } else { l(rand_sels(&mut rng, t.len(), 5)) };
+                            emit(out, l(vec![a(2), txt(&t), sels, sets.clone()]), "trim_text+with (multi-byte trim sets, targeted)");
+                        }
+                    }
+                }
+            }
+        }
+    }
     // segmentation: every set of <= 2 known selections over texts of 4 and 5 characters, every range
     for (n, interval) in [(4usize, 2usize), (5, 3), (5, 0)] {
         if n == 5 && interval == 0 && !thorough {
@@ -579,6 +620,6 @@ pub fn generate(out: &mut Out, tier: &str, seed: u64) {
     }
 }
 
-pub const RULE: &str = "Exhaustive: every text of length <=4 (thorough 5) over {a, A, e-acute (2 bytes), U+1F600 (4 bytes)} x the resource and every sub-selection (unbound, bound, bound through ResultItem<TextSelection>) x every needle / delimiter of length <=2 over the same alphabet (empty included) for find_text, find_text_nocase and split_text, x 5 trim sets for trim_text and trim_text_with; segmentation of every range of a 4- and a 5-character mixed-width text under every set of <=2 known selections (zero-width and end-of-text ones included) with milestones. Seeded random: texts up to 10 (thorough 14) characters over an 18-character alphabet with 1-4 byte characters incl. characters whose lower-casing changes the UTF-8 length or the number of characters (U+0130, U+1E9E, U+212A, U+023A), needles drawn from the text (case flipped) or at random, random trim sets, fragment sequences with a skip set (exact and case-insensitive), 1-4 regular expressions from a family of 20 (literals, classes, alternation, empty matches, word boundary, lazy, 0-2 capture groups incl. optional ones) with and without allow_overlap on the resource or a sub-selection, the regex crate's own matches on a plain copy of the slice being the oracle; every pattern and (half of / thorough: all) ordered pattern pairs, and a fifth of the triples with a never-matching middle expression (RegexSet pre-selection, with and without a precompiled set), on 4 fixed texts (whole and two sub-selections); store-wide find_text over 1-3 resources. One evaluation = one operation call with its complete result list (begin, end and text of every returned selection). Non-trivial = the result has more than one selection (find/split/segmentation/sequence), something was trimmed, or a regex result exists. distinct = distinct model inputs.";
+pub const RULE: &str = "Exhaustive: every text of length <=4 (thorough 5) over {a, A, e-acute (2 bytes), U+1F600 (4 bytes)} x the resource and every sub-selection (unbound, bound, bound through ResultItem<TextSelection>) x every needle / delimiter of length <=2 over the same alphabet (empty included) for find_text, find_text_nocase and split_text, x 5 trim sets for trim_text and trim_text_with; targeted trim cases: trim sets of 2-, 3- and 4-byte characters (guillemets, NBSP, ellipsis, typographic quote, emoji) on texts with leading/trailing runs (0-2, thorough 0-3, single and mixed widths) around 5 cores incl. the empty one (text = only trimmed characters), on the resource and all / random sub-selections; segmentation of every range of a 4- and a 5-character mixed-width text under every set of <=2 known selections (zero-width and end-of-text ones included) with milestones. Seeded random: texts up to 10 (thorough 14) characters over an 18-character alphabet with 1-4 byte characters incl. characters whose lower-casing changes the UTF-8 length or the number of characters (U+0130, U+1E9E, U+212A, U+023A), needles drawn from the text (case flipped) or at random, random trim sets, fragment sequences with a skip set (exact and case-insensitive), 1-4 regular expressions from a family of 20 (literals, classes, alternation, empty matches, word boundary, lazy, 0-2 capture groups incl. optional ones) with and without allow_overlap on the resource or a sub-selection, the regex crate's own matches on a plain copy of the slice being the oracle; every pattern and (half of / thorough: all) ordered pattern pairs, and a fifth of the triples with a never-matching middle expression (RegexSet pre-selection, with and without a precompiled set), on 4 fixed texts (whole and two sub-selections); store-wide find_text over 1-3 resources. One evaluation = one operation call with its complete result list (begin, end and text of every returned selection). Non-trivial = the result has more than one selection (find/split/segmentation/sequence), something was trimmed, or a regex result exists. distinct = distinct model inputs.";
 
 pub const EXHAUSTIVE: bool = true;
